@@ -970,17 +970,15 @@ def g_cfg(case, cfg=None):
         gZ(cfg['min']), gZ(cfg['max']), mode)
 
 
-TOLERANCE = F(1e-10)     # the float, exactly
-
-
 def g_wf(d, cls, wlen=None):
     ln = F(d['len'])
     if d.get('eps') and wlen is not None:
-        # a piece within get_waveform_length's tolerance of its nominal sample count is SPECIFIED as that many samples
-        # (decided here, with exact fractions, not by the implementation); outside the tolerance the exact length is given
-        exact = F(wlen)
-        if abs(exact - ln) > TOLERANCE:
-            return g_wf(dict(d, len=str(exact), eps=None, n=int(ln)), cls)
+        # round 6: the table carries the EXACT length of the waveform object (read from the implementation) next to the
+        # nominal sample count; whether the length is within get_waveform_length's tolerance of the count is decided in
+        # Coq — by the model (waveform_length) and, independently, by the specification (Spec.snap / spec_tol:
+        # within the tolerance = specified as that many samples, outside = no specification).  Until round 5 this
+        # harness decided it with exact fractions.
+        return g_wf(dict(d, len=str(F(wlen)), eps=None, n=int(ln)), cls)
     n = d['n'] if d.get('n') is not None else (int(ln) if ln.denominator == 1 else int(round(ln)))
     data = []
     for k in desc_channels(d):
